@@ -8,6 +8,7 @@ import hashlib
 import os
 
 from . import pyxfront
+from . import cfront
 from .ctypes_ import TypeTable
 from .values import Unsupported
 
@@ -155,6 +156,18 @@ class Program:
                 name = "cutadapt." + fn[:-4]
                 self.sources[p] = src
                 self.pyx[name] = IModule(name, p, pyxfront.parse_pyx(src, fn[:-4]), src)
+        self.cfuncs = {}
+        self.c_modules = {}
+        for fn in sorted(os.listdir(self.pkg_dir)):
+            if fn.endswith(".h"):
+                p = os.path.join(self.pkg_dir, fn)
+                src = open(p).read()
+                self.sources[p] = src
+                tree, tables = cfront.parse_header(p)
+                m = IModule("cutadapt." + fn.replace(".", "_"), p, tree, src)
+                m.is_c = True
+                m.c_tables = tables
+                self.c_modules[m.name] = m
 
     def py_module(self, path):
         path = os.path.realpath(path)
